@@ -4,3 +4,4 @@ import ZbossModel.Props.C13
 #print axioms Zboss.Host.C13_response_to_running
 #print axioms Zboss.Host.C13_finish_removes
 #print axioms Zboss.Host.C13_no_new_listeners
+#print axioms Zboss.Host.C13_no_residue_any_schedule
